@@ -418,6 +418,9 @@ def r5_clone_provenance(facts):
             if ok:
                 inner = strip(e0["args"][0])
                 ok = inner.get("k") == "Call" and callee(inner) == "core::cell::Cell::<T>::get" and _self_field(inner["args"][0], selfv) == name
+            elif e0.get("k") == "Call" and callee(e0) == "core::clone::Clone::clone" and (resolved(e0) or "").startswith("<core::cell::Cell<T> as") \
+                    and _self_field(e0["args"][0], selfv) == name:
+                ok = True       # Cell<T: Copy>::clone copies the value into a fresh cell (what #[derive(Clone)] emits)
             if ok:
                 c.ok(inst, where, "per-handle flag copied by value: Cell::new(self.%s.get()); the type is not behind Rc so it cannot be shared" % name)
             else:
@@ -561,6 +564,169 @@ def funnel_body(facts):
     return None
 
 
+def _closure_single_expr(facts, clo):
+    cb = facts.body(clo["closure"])
+    if cb is None:
+        return None, []
+    cr = strip(facts.root(cb))
+    while isinstance(cr, dict) and cr.get("k") == "Block" and not cr["stmts"] and cr.get("e") is not None:
+        cr = strip(cr["e"])
+    return cr, [v for v, _, _, _ in param_vars(facts, cb)]
+
+
+def collect_asserted(facts, stmts, roles, depth=0):
+    """Facts asserted (the failing branch diverges) by the straight-line statement list
+    `stmts`, about the values playing the roles 'dims' (the dimension vector) and 'vals'
+    (the value buffer).  -> ({'positive': node, 'count': node}, number of assertions seen).
+    Looks one level into crate-local helper functions called as statements."""
+    env = {}
+    got = {}
+    count = [0]
+
+    def resolve(e):
+        e = strip(e)
+        n = 0
+        while isinstance(e, dict) and e.get("k") == "VarRef" and e["v"] in env and e["v"] not in roles and n < 4:
+            e = strip(env[e["v"]])
+            n += 1
+        return e
+
+    def role(e):
+        e = peel(resolve(e))
+        if not isinstance(e, dict):
+            return None
+        if e.get("k") in ("VarRef", "UpvarRef"):
+            return roles.get(e["v"])
+        if e.get("k") == "Call":
+            cal = callee(e)
+            if cal in ("alloc::vec::Vec::<T, A>::len", "core::slice::<impl [T]>::len") and role(e["args"][0]) == "vals":
+                return "len"
+            if cal in ("core::slice::<impl [T]>::iter", "core::iter::traits::collect::IntoIterator::into_iter",
+                       "core::iter::traits::iterator::Iterator::copied", "core::iter::traits::iterator::Iterator::cloned") \
+                    and role(e["args"][0]) in ("dims", "dims-iter"):
+                return "dims-iter"
+            if cal == "core::iter::traits::iterator::Iterator::product" and role(e["args"][0]) == "dims-iter":
+                return "prod"
+            if cal == "core::iter::traits::iterator::Iterator::fold" and role(e["args"][0]) == "dims-iter" and F.lit_value(e["args"][1]) == 1:
+                clo = strip(e["args"][2])
+                if clo.get("k") == "Closure":
+                    cr, pv = _closure_single_expr(facts, clo)
+                    if isinstance(cr, dict) and (cr.get("k") == "Binary" and cr["op"] == "Mul" or callee(cr) == "core::ops::arith::Mul::mul"):
+                        return "prod"
+        return None
+
+    def elementwise(e, want):
+        """closure literal |d| d <op> k : returns True if it states d >= 1 (want='pos') or d == 0 (want='zero')"""
+        e = strip(e)
+        if e.get("k") != "Closure":
+            return False
+        cr, pv = _closure_single_expr(facts, e)
+        if not isinstance(cr, dict) or cr.get("k") != "Binary" or not pv:
+            return False
+        l, r = cr["l"], cr["r"]
+        op = cr["op"]
+        if var_of(r) == pv[0] and var_of(l) != pv[0]:
+            l, r = r, l
+            op = {"Ge": "Le", "Gt": "Lt", "Le": "Ge", "Lt": "Gt"}.get(op, op)
+        if var_of(l) != pv[0]:
+            return False
+        k = F.lit_value(r)
+        if want == "pos":
+            return (op, k) in (("Ge", 1), ("Gt", 0), ("Ne", 0))
+        return (op, k) in (("Eq", 0), ("Lt", 1), ("Le", 0))
+
+    def learn(cond, truth, node):
+        """cond evaluates to `truth` on the path that continues"""
+        cond = resolve(cond)
+        if not isinstance(cond, dict):
+            return
+        k = cond.get("k")
+        if k == "Unary" and cond["op"] == "Not":
+            return learn(cond["e"], not truth, node)
+        if k == "Call" and callee(cond) == "core::ops::bit::Not::not":
+            return learn(cond["args"][0], not truth, node)
+        if k == "LogicalOp":
+            if cond["op"] == "And" and truth:
+                learn(cond["l"], True, node)
+                learn(cond["r"], True, node)
+            elif cond["op"] == "Or" and not truth:
+                learn(cond["l"], False, node)
+                learn(cond["r"], False, node)
+            return
+        if k == "Call":
+            cal = callee(cond)
+            if cal == "core::iter::traits::iterator::Iterator::all" and truth and role(cond["args"][0]) == "dims-iter" \
+                    and elementwise(cond["args"][1], "pos"):
+                got.setdefault("positive", node)
+            if cal == "core::iter::traits::iterator::Iterator::any" and not truth and role(cond["args"][0]) == "dims-iter" \
+                    and elementwise(cond["args"][1], "zero"):
+                got.setdefault("positive", node)
+            if cal == "core::slice::<impl [T]>::contains" and not truth and role(cond["args"][0]) == "dims" \
+                    and F.lit_value(peel(cond["args"][1])) == 0:
+                got.setdefault("positive", node)
+            if cal in ("core::cmp::PartialEq::eq", "core::cmp::PartialEq::ne") and (truth == cal.endswith("::eq")):
+                rs = {role(cond["args"][0]), role(cond["args"][1])}
+                if rs == {"prod", "len"}:
+                    got.setdefault("count", node)
+        if k == "Binary" and ((cond["op"] == "Eq" and truth) or (cond["op"] == "Ne" and not truth)):
+            rs = {role(cond["l"]), role(cond["r"])}
+            if rs == {"prod", "len"}:
+                got.setdefault("count", node)
+
+    for s in stmts:
+        if s["s"] == "let":
+            if s["pat"].get("k") == "Binding" and s.get("init") is not None:
+                env[s["pat"]["v"]] = s["init"]
+            init = s.get("init")
+            e = strip(init) if init is not None else None
+        else:
+            e = strip(s["e"])
+        if not isinstance(e, dict):
+            continue
+        if s["s"] == "expr" and e.get("k") == "If" and diverges(e["then"]) and e.get("else") is None:
+            count[0] += 1
+            learn(e["cond"], False, e)
+            continue
+        if e.get("k") == "Match" and e.get("mac") in ("assert_eq", "assert_ne") and e.get("x"):
+            count[0] += 1
+            tup = strip(e["scrutinee"])
+            if tup.get("k") == "Tuple" and len(tup["fields"]) == 2 and e.get("mac") == "assert_eq":
+                rs = {role(tup["fields"][0]), role(tup["fields"][1])}
+                if rs == {"prod", "len"}:
+                    got.setdefault("count", e)
+            continue
+        # a crate-local helper called for its assertions
+        if e.get("k") == "Call" and depth < 1:
+            cal = e.get("callee") or {}
+            if cal.get("resolved_local"):
+                hb = facts.body(cal.get("resolved"))
+                if hb is not None and hb["kind"] in ("Fn", "AssocFn"):
+                    hroot = strip(facts.root(hb))
+                    ps = [p for p in facts.params(hb) if p.get("pat")]
+                    sub_roles = {}
+                    for p, a in zip(ps, e["args"]):
+                        if p["pat"].get("k") == "Binding":
+                            r = role(a)
+                            if r in ("dims", "vals", "len", "prod"):
+                                sub_roles[p["pat"]["v"]] = r
+                    if sub_roles and isinstance(hroot, dict) and hroot.get("k") == "Block":
+                        hstmts = list(hroot["stmts"])
+                        if hroot.get("e") is not None:
+                            hstmts.append({"s": "expr", "e": hroot["e"]})
+                        # 'len'/'prod' roles arrive as plain values
+                        sub, n = _collect_with_value_roles(facts, hstmts, sub_roles, depth + 1)
+                        count[0] += n
+                        for k2, v2 in sub.items():
+                            got.setdefault(k2, e)
+    return got, count[0]
+
+
+def _collect_with_value_roles(facts, stmts, roles, depth):
+    # collect_asserted treats roles of variables; value roles ('len', 'prod') are handled by
+    # letting role() return them directly for the variable
+    return collect_asserted(facts, stmts, roles, depth)
+
+
 def r16_ctor_funnel(facts):
     c = Ctx("R16", facts, "every Array is built through the asserting constructor")
     lit_bodies = {}
@@ -607,73 +773,23 @@ def r16_ctor_funnel(facts):
     if not dim_v or not val_v:
         c.unk("funnel:fields", loc(fb, tail), "dimensions/values initialisers are not plain variables")
         return c
-    env = {}
-    asserted = []   # list of condition expressions asserted true on the path to the literal
     reassigned = assigned_vars(root)
-    for s in stmts:
-        if s["s"] == "let":
-            if s["pat"].get("k") == "Binding" and s.get("init") is not None:
-                env[s["pat"]["v"]] = s["init"]
-            continue
-        e = strip(s["e"])
-        if e.get("k") == "If" and diverges(e["then"]) and e.get("else") is None:
-            cond = strip(e["cond"])
-            if cond.get("k") == "Unary" and cond["op"] == "Not":
-                asserted.append(strip(cond["e"]))
-            continue
-        if e.get("k") == "Match" and e.get("x") and e.get("mac") in ("assert_eq", "assert_ne"):
-            asserted.append(e)
-            continue
-        if any(x.get("k") in ("Return", "Break") for x in walk(e)):
-            c.unk("funnel:early-exit", loc(fb, e), "early exit between the assertions and the literal")
     if dim_v in reassigned or val_v in reassigned:
         c.bad("funnel:reassigned", loc(fb, root), "dimensions/values are modified between the assertions and the literal")
-
-    def resolve(e):
-        e = strip(e)
-        n = 0
-        while var_of(e) and e.get("k") == "VarRef" and var_of(e) in env and n < 4:
-            e = strip(env[var_of(e)])
-            n += 1
-        return e
-
-    def iter_over(e, v):
-        """e is `<x>.iter()` (possibly through deref) of variable v"""
-        e = strip(e)
-        if e.get("k") == "Borrow":
-            e = strip(e["e"])
-        if e.get("k") == "Call" and callee(e) in ("core::slice::<impl [T]>::iter", "core::iter::traits::collect::IntoIterator::into_iter"):
-            return var_of(e["args"][0]) == v
-        return False
-
-    got_pos = None
-    got_len = None
-    for a in asserted:
-        a = resolve(a)
-        if a.get("k") == "Call" and callee(a) == "core::iter::traits::iterator::Iterator::all" and iter_over(a["args"][0], dim_v):
-            clo = strip(a["args"][1])
-            if clo.get("k") == "Closure":
-                cb = facts.body(clo["closure"])
-                cr = strip(facts.root(cb))
-                while cr.get("k") == "Block" and not cr["stmts"]:
-                    cr = strip(cr["e"])
-                pv = [v for v, _, _, _ in param_vars(facts, cb)]
-                if cr.get("k") == "Binary" and pv and var_of(cr["l"]) == pv[0]:
-                    lit = F.lit_value(cr["r"])
-                    if (cr["op"], lit) in (("Ge", 1), ("Gt", 0), ("Ne", 0)):
-                        got_pos = a
-        if a.get("k") == "Binary" and a["op"] == "Eq":
-            sides = [strip(a["l"]), strip(a["r"])]
-            prod = [s for s in sides if s.get("k") == "Call" and callee(s) == "core::iter::traits::iterator::Iterator::product" and iter_over(s["args"][0], dim_v)]
-            ln = [s for s in sides if s.get("k") == "Call" and callee(s) == "alloc::vec::Vec::<T, A>::len" and var_of(s["args"][0]) == val_v]
-            if prod and ln:
-                got_len = a
+    for s in stmts:
+        if s["s"] == "expr" and not (strip(s["e"]).get("k") == "If" and diverges(strip(s["e"])["then"])):
+            if any(x.get("k") in ("Return", "Break") for x in walk(s["e"])):
+                c.unk("funnel:early-exit", loc(fb, s["e"]), "early exit between the assertions and the literal")
+    got, n_asserted = collect_asserted(facts, stmts, {dim_v: "dims", val_v: "vals"})
+    got_pos = got.get("positive")
+    got_len = got.get("count")
     c.check(got_pos is not None, "funnel:assert-positive-dimensions", loc(fb, got_pos or root),
-            "every path to the literal passes `dimensions.iter().all(|d| d >= 1)` over the stored operand",
+            "every path to the literal passes an assertion that every stored dimension is >= 1",
             "no dominating assertion that every dimension is >= 1 (a zero dimension would be accepted)")
     c.check(got_len is not None, "funnel:assert-element-count", loc(fb, got_len or root),
             "every path to the literal passes `product(dimensions) == values.len()` over the stored operands",
             "no dominating assertion that the product of the dimensions equals the number of values")
+    asserted = [None] * n_asserted
     c.count("assertions on the straight-line path to the literal", len(asserted))
     # (c) From<Vec<Array>> asserts pairwise-equal shapes
     nested = None
